@@ -42,13 +42,21 @@
        |a - b| plus 2 E19 (per coordinate, and in Euclidean distance with
        2 (Ex + Ey)).
 
-   NOT proved (the property stays PARTIAL): the steps BEFORE the segment
-   interpolation in IEEE arithmetic -- that fl(fl(lengths[j] / dist) * dist)
-   is within a few ulps of lengths[j] and which index the search then
-   returns (the "vertex hits through lengths[j] / dist" gap) -- and with them
-   the GLOBAL Lipschitz bound across segments in IEEE arithmetic (the
-   per-segment bound above plus the exact-arithmetic global bound are there;
-   their combination is not).  These are monitored by the search oracle of
+     - vertex hits through lengths[j] / dist: fl(fl(l_j / dist) * dist) is
+       within Dfrac = 2.001 * 2^-53 * l_j + 2^-1075 (2 dist + 1) of l_j; the
+       transcribed search meets its contract for the IEEE comparisons on
+       finite non-decreasing lengths; and for an interior vertex separated
+       from both neighbours by more than Dfrac the computed position is
+       vertex j up to slope * Dfrac + E19
+       (C19_vertex_fraction_position_partial).
+
+   NOT proved (the property stays PARTIAL): vertex hits through
+   lengths[j] / dist when several vertices' cumulative lengths lie within
+   Dfrac of each other (needs a bound on the accumulated rounding error of
+   the running sums, which is not in this development); the GLOBAL Lipschitz
+   bound across segments in IEEE arithmetic (the per-segment IEEE bound and
+   the exact-arithmetic global bound are there; their combination needs the
+   same accumulated-error bound).  These are monitored by the search oracle of
    harness/src/c19.rs with the rounding slack 1e-3 + 4e-6 * (magnitude + dist)
    (4e-6 = 67 * 2^-24), which is wider than the proved per-segment bound
    (at most 7.02 * 2^-24 * magnitude per coordinate). *)
@@ -525,7 +533,7 @@ Proof. vm_compute. reflexivity. Qed.
 (* ================================================================== *)
 (* T19-IEEE -- rounding error of the position on a segment             *)
 (* ================================================================== *)
-From RM Require Import Proofs.LengthBound Proofs.AdjustIEEEBase Proofs.AdjustIEEE Proofs.InterpIEEE Proofs.AdjustIEEEEx.
+From RM Require Import Proofs.LengthBound Proofs.AdjustIEEEBase Proofs.AdjustIEEE Proofs.InterpIEEE Proofs.InterpIEEEFrac Proofs.AdjustIEEEEx.
 Open Scope Z_scope.
 
 (* the guard of the code is |fl(d0 - d1)| <= f64::EPSILON = 2^-52 (pinned);
@@ -669,3 +677,89 @@ Example C19_ieee_bound_example :
   = [0; S.bits (S.of_decimal false 45384617 (-7)); S.bits (S.of_decimal false 7692308 (-6))].
 Proof. split; [exact ex_interp_bound|exact ex_interp_dump]. Qed.
 Print Assumptions C19_ieee_bound_example.
+
+(* ================================================================== *)
+(* vertex hits through lengths[j] / dist -- IEEE arithmetic            *)
+(* ================================================================== *)
+
+(* progress fl(l_j / dist) lies in [0, 1] (no clamping) and the distance
+   fl(fl(l_j / dist) * dist) is within Dfrac = 2.001 * 2^-53 * l_j +
+   2^-1075 (2 dist + 1) of l_j -- about one ulp of l_j -- for finite
+   0 < l_j <= dist <= 2^1023 *)
+Theorem C19_vertex_fraction_distance_ieee :
+  forall (lens : list F64) (lj : F64),
+  let L := Curve.dist lens in
+  is_finite lj = true -> is_finite L = true -> (0 < B2R lj <= B2R L)%R -> (B2R L <= Raux.bpow Zaux.radix2 1023)%R ->
+  let d := progress_to_dist lens (D.div lj L) in
+  is_finite d = true /\ (0 <= B2R d <= B2R L)%R /\ (Rabs (B2R d - B2R lj) <= Dfrac (B2R lj) (B2R L))%R.
+Proof. exact vertex_fraction_distance. Qed.
+Print Assumptions C19_vertex_fraction_distance_ieee.
+
+Theorem C19_vertex_fraction_definitions :
+  (forall lj L, Dfrac lj L = (2.001 * u64 * lj + eta64 * (2 * L + 1))%R) /\
+  u64 = (/ 9007199254740992)%R /\ eta64 = Raux.bpow Zaux.radix2 (-1075) /\
+  (forall lens, sorted_fin lens <->
+     Forall (fun v => is_finite v = true) lens /\
+     forall a b x y, (a <= b)%nat -> nth_error lens a = Some x -> nth_error lens b = Some y -> (B2R x <= B2R y)%R) /\
+  (forall c0 c1 c2 l0 l1 l2 L, Efrac c0 c1 c2 l0 l1 l2 L =
+     Rmax (Rabs (c1 - c0) / (l1 - l0) * Dfrac l1 L + E19 c0 c1)
+          (Rabs (c2 - c1) / (l2 - l1) * Dfrac l1 L + E19 c1 c2)%R) /\
+  (forall p0 p1 p2 l0 l1 l2 L, frac_hyps p0 p1 p2 l0 l1 l2 L <->
+     bnd32 (px p0) 20 /\ bnd32 (py p0) 20 /\ bnd32 (px p1) 20 /\ bnd32 (py p1) 20 /\
+     bnd32 (px p2) 20 /\ bnd32 (py p2) 20 /\
+     is_finite L = true /\ (B2R L <= Raux.bpow Zaux.radix2 1023)%R /\ (0 <= B2R l0)%R /\ (B2R l2 <= B2R L)%R /\
+     (Raux.bpow Zaux.radix2 (-51) <= B2R l1 - B2R l0)%R /\ (Raux.bpow Zaux.radix2 (-51) <= B2R l2 - B2R l1)%R /\
+     (Dfrac (B2R l1) (B2R L) < B2R l1 - B2R l0)%R /\ (Dfrac (B2R l1) (B2R L) < B2R l2 - B2R l1)%R).
+Proof. split; [|split; [|split; [|split; [|split]]]]; intros; reflexivity. Qed.
+Print Assumptions C19_vertex_fraction_definitions.
+
+(* the transcribed std binary search on finite non-decreasing lengths, IEEE
+   comparisons: an element numerically equal to d, or the insertion point *)
+Theorem C19_search_contract_ieee :
+  forall (lens : list F64) (d : F64), sorted_fin lens -> is_finite d = true ->
+  let i := idx_of_dist lens d in
+  (exists x, nth_error lens i = Some x /\ B2R x = B2R d) \/
+  ((forall k x, (k < i)%nat -> nth_error lens k = Some x -> (B2R x < B2R d)%R) /\
+   (forall k x, (i <= k)%nat -> nth_error lens k = Some x -> (B2R d < B2R x)%R)).
+Proof. exact idx_of_dist_contract_ieee. Qed.
+Print Assumptions C19_search_contract_ieee.
+
+(* FULL STATEMENT (not proved): for every vertex j of a computed curve,
+   position_at (lengths[j] / dist) is within an explicit rounding bound of
+   path[j] (or of a vertex carrying the same cumulative length).
+   PROVED PART: an interior vertex whose cumulative length is separated from
+   both neighbours by more than Dfrac (and by at least 2^-51, the guard): the
+   search returns j or j + 1 and the computed position is vertex j up to
+   slope * Dfrac + E19 per coordinate, slope = |c_j - c_{j-1}| / (l_j - l_{j-1})
+   resp. the next segment's.
+   MISSING: (1) clusters of vertices whose cumulative lengths differ by less
+   than Dfrac -- the search may land on another vertex of the cluster, and
+   bounding its distance to vertex j needs "chord <= arc" for the IEEE lengths,
+   i.e. a bound on the accumulated error of the running sums, which this
+   development does not have; (2) the first and the last vertex (covered
+   separately by C19_progress_zero_is_first_vertex and
+   C19_progress_one_repeated_last_length); (3) slope <= 1 + rounding for the
+   lengths calculate_length computes (same missing accumulated-error bound) *)
+Theorem C19_vertex_fraction_position_partial :
+  forall (path : list Pos) (lens : list F64) j p0 p1 p2 l0 l1 l2,
+  let L := Curve.dist lens in
+  nth_error path j = Some p0 -> nth_error path (S j) = Some p1 -> nth_error path (S (S j)) = Some p2 ->
+  nth_error lens j = Some l0 -> nth_error lens (S j) = Some l1 -> nth_error lens (S (S j)) = Some l2 ->
+  sorted_fin lens -> frac_hyps p0 p1 p2 l0 l1 l2 L ->
+  exists q, position_at path lens (D.div l1 L) = Done q /\
+    (Rabs (B2R (px q) - B2R (px p1))
+       <= Efrac (B2R (px p0)) (B2R (px p1)) (B2R (px p2)) (B2R l0) (B2R l1) (B2R l2) (B2R L))%R /\
+    (Rabs (B2R (py q) - B2R (py p1))
+       <= Efrac (B2R (py p0)) (B2R (py p1)) (B2R (py p2)) (B2R l0) (B2R l1) (B2R l2) (B2R L))%R.
+Proof. exact vertex_fraction_position_partial. Qed.
+Print Assumptions C19_vertex_fraction_position_partial.
+
+(* the hypotheses hold for the middle vertex (3,4) of (0,0) (3,4) (8,16),
+   lengths 0, 5, 18: position_at (5 / 18) is (3, 4) up to 1.4e-6 / 3.2e-6 px *)
+Example C19_vertex_fraction_example :
+  sorted_fin ex_lens /\
+  frac_hyps ex_p0 ex_p1 ex_p2 (D.of_Z 0) (D.of_Z 5) (D.of_Z 18) (Curve.dist ex_lens) /\
+  exists q, position_at ex_path ex_lens (D.div (D.of_Z 5) (Curve.dist ex_lens)) = Done q /\
+    (Rabs (B2R (px q) - 3) <= 1.4 / 1000000)%R /\ (Rabs (B2R (py q) - 4) <= 3.2 / 1000000)%R.
+Proof. split; [exact ex_sorted|]. split; [exact ex_frac_hyps|exact ex_frac_bound]. Qed.
+Print Assumptions C19_vertex_fraction_example.
